@@ -92,7 +92,7 @@ func c19Race(c *Ctx) {
 	all := map[string]*c19RacePair{}
 	reports := 0
 	for _, j := range jobs {
-		text, ran := c19RunHammer(c, exe, j.sub, j.mode, j.rounds, 900*time.Second)
+		text, ran := c19RunHammer(c, exe, j.sub, j.mode, j.rounds, c19ChildLimit())
 		if !ran {
 			continue
 		}
